@@ -141,7 +141,7 @@ Dispatch(ftol, fmode, fskip) ==
      ELSE IF c.c = "Esc" THEN
         stack' = Append(stack, CmdFrame("expr", 0, 0-1, 0-1, ftol, fmode, fmode, fskip, c.p, 0))
      ELSE IF c.c = "GB" THEN
-        stack' = Append(stack, ArgFrame("{", c.p, ftol, "nm"))
+        stack' = Append(stack, ArgFrame("{", c.p, ftol, fmode))      \* a brace group inherits the mode
      ELSE stack' = SetTop([Top EXCEPT !.items = Append(Top.items, TextN(c))])
   /\ Keep
 
